@@ -211,12 +211,41 @@ def clocktime_round_trip(repo):
             end = i
     if start is None or end is None:
         raise ExtractError("_write_times: START CLOCKTIME writer not found")
-    fmt_call = None
+    # the text expression of that line, in whichever of Python's three formatting spellings: '...'.format(..), '...' % (..), f'...'
+    fmt_expr = None
     for n in ast.walk(wt.body[end]):
-        if isinstance(n, ast.Call) and isinstance(n.func, ast.Attribute) and n.func.attr == "format" and isinstance(n.func.value, ast.Constant) and "START CLOCKTIME" in unparse(n):
-            fmt_call = n
-    if fmt_call is None:
+        if "START CLOCKTIME" not in unparse(n):
+            continue
+        if isinstance(n, ast.Call) and isinstance(n.func, ast.Attribute) and n.func.attr == "format" and isinstance(n.func.value, ast.Constant) and isinstance(n.func.value.value, str):
+            fmt_expr = n
+        elif isinstance(n, ast.JoinedStr) and fmt_expr is None:
+            fmt_expr = n
+        elif isinstance(n, ast.BinOp) and isinstance(n.op, ast.Mod) and isinstance(n.left, ast.Constant) and isinstance(n.left.value, str) and fmt_expr is None:
+            fmt_expr = n
+    if fmt_expr is None:
         raise ExtractError("_write_times: format of the START CLOCKTIME line not found")
+
+    def render(e, w):
+        if isinstance(e, ast.Call):
+            return e.func.value.value.format(*[w.ev(a) for a in e.args], **{k.arg: w.ev(k.value) for k in e.keywords if k.arg})
+        if isinstance(e, ast.BinOp):
+            r = w.ev(e.right)
+            return e.left.value % (tuple(r) if isinstance(r, (tuple, list)) else r)
+        out = []
+        for part in e.values:
+            if isinstance(part, ast.Constant):
+                out.append(str(part.value))
+                continue
+            v = w.ev(part.value)
+            if part.conversion == 114:
+                v = repr(v)
+            elif part.conversion == 115:
+                v = str(v)
+            elif part.conversion == 97:
+                v = ascii(v)
+            spec = render(part.format_spec, w) if part.format_spec is not None else ""
+            out.append(format(v, spec))
+        return "".join(out)
 
     class Ev(Evaluator):
         def e_Subscript(self, n):
@@ -263,8 +292,7 @@ def clocktime_round_trip(repo):
             try:
                 w = Ev({"time": Obj("time", {"start_clocktime": t})}, None, hook)
                 w.block(wt.body[start:end])
-                args = [w.ev(a) for a in fmt_call.args]
-                text = fmt_call.func.value.value.format(*args).strip()
+                text = render(fmt_expr, w).strip()
                 toks = text.split()
                 # reader side: current = line.split(); time = current[2]; am/pm = current[3] (or 'AM')
                 clock, ampm = toks[2], (toks[3].upper() if len(toks) > 3 else "AM")
